@@ -79,6 +79,11 @@ def main():
             result['demo_patched'] = rc
             if args.verbose:
                 result['demo_output'] = out
+        try:
+            known = {(e['rule'], e['construct']) for e in json.load(open(os.path.join(HERE, 'known_findings.json')))['findings']
+                     if e.get('status') == 'known'}
+        except (OSError, ValueError, KeyError):
+            known = set()
         fired = {}
         for p in props:
             buf = io.StringIO()
@@ -87,7 +92,7 @@ def main():
             if code != 0:
                 fired[p] = {'exit': code,
                             'violations': sorted({f"{o['rule']} :: {o['construct']}" for o in ck.obligations
-                                                  if not o['ok']})[:6],
+                                                  if not o['ok'] and (o['rule'], o['construct']) not in known})[:6],
                             'errors': [f"{r_}: {w}" for r_, w in ck.analysis_errors][:3]}
         result['fired'] = fired
         print(json.dumps(result, indent=1))
